@@ -111,6 +111,11 @@ def oracle(case):
         full = re_.wrap(leaf, path)
         try:
             obj = pty.from_micheline_value(full)
+            if case.get("touch_python"):   # the value is also looked at as a Python object (what a REPL or a log line does)
+                try:
+                    obj.to_python_object()
+                except Exception:
+                    pass
             params = obj.to_parameters(mode="optimized")
         except Exception as e:
             raise Violation("to_parameters raised %r for value %s of parameter %s" % (e, full, _ts(at)), case,
@@ -215,7 +220,7 @@ def exhaustive_items(max_leaves):
             for k in range(0, min(len(pool), len(ns)) + 1):
                 for subset in itertools.combinations(ns, k):
                     for perm in itertools.permutations(pool, k):
-                        items.append({"t": build(shape, dict(zip(subset, perm))), "k": len(items) % 3})
+                        items.append({"t": build(shape, dict(zip(subset, perm))), "k": len(items) % 3, "touch_python": len(items) % 2 == 1})
     return items
 
 
@@ -225,7 +230,8 @@ def sampled(draw):
     shape = draw(st.sampled_from(shapes(min(n, 6))))
     ns = nodes(shape)
     # (entrypoint names may be up to 31 characters long)
-    pool = ["a", "b", "c", "d", "e", "default", "root", "a", "do", "x_1", "e" * 31, "f" * 30, "transfer_ownership_of_the_token"]
+    pool = ["a", "b", "c", "d", "e", "default", "root", "a", "do", "x_1", "e" * 31, "f" * 30, "transfer_ownership_of_the_token",
+            "set%admin", "get%", "a.b", "x@y", "mint", "mint%batch"]   # (after the first character `.`, `%` and `@` are legal too)
     names, tnames = {}, {}
     for p in ns:
         if draw(st.integers(0, 2)) == 0:
@@ -233,7 +239,7 @@ def sampled(draw):
         if draw(st.integers(0, 5)) == 0:  # :type annotations never matter for entrypoints
             tnames[p] = draw(st.sampled_from(["action", "t", "a"]))
     leaves = draw(st.lists(st.sampled_from(RICH_LEAVES), min_size=3, max_size=8)) if draw(st.booleans()) else None
-    return {"t": build(shape, names, tnames=tnames, leaves=leaves), "k": draw(st.integers(0, 5))}
+    return {"t": build(shape, names, tnames=tnames, leaves=leaves), "k": draw(st.integers(0, 5)), "touch_python": draw(st.booleans())}
 
 
 def _prop(case, stats):
